@@ -330,6 +330,34 @@ func (w *World) MapAncestors(name string) []string {
 	return out
 }
 
+// UsedMods: the module `name` and everything it depends on, directly or not (the modules a request for it executes).
+func (w *World) UsedMods(name string) []string {
+	out := []string{name}
+	seen := map[string]bool{name: true}
+	for i := 0; i < len(out); i++ {
+		m := w.Mod(out[i])
+		if m == nil {
+			continue
+		}
+		refs := []string{}
+		for _, in := range m.Inputs {
+			if in.Kind == "map" || in.Kind == "get" || in.Kind == "deltas" {
+				refs = append(refs, in.Ref)
+			}
+		}
+		if m.FilterMod != "" {
+			refs = append(refs, m.FilterMod)
+		}
+		for _, r := range refs {
+			if !seen[r] {
+				seen[r] = true
+				out = append(out, r)
+			}
+		}
+	}
+	return out
+}
+
 // Scenario: a world plus a request over it.
 type Scenario struct {
 	W      *World
